@@ -102,6 +102,14 @@ func (api *API) mapEncodeBasedOnType(
 			return api.mapEncodeSlice(ctx, sliceValue, sliceValueType, ts, opts)
 		}
 
+		// a pointer to anything else (map, slice, string, number, interface, another pointer) is written like the value it
+		// points to, as in the binary form
+		if elemValue.Kind() == reflect.Ptr || elemValue.Kind() == reflect.Interface {
+			return api.mapEncode(ctx, elemValue, ts, opts)
+		}
+
+		return api.mapEncodeBasedOnType(ctx, elemValue, elemValue.Interface(), elemValue.Type(), ts, opts)
+
 	case reflect.Struct:
 		// a uint256 number that is held as a big.Int value (see encodeBasedOnType)
 		if valueBigInt, ok := valueI.(big.Int); ok {
